@@ -108,7 +108,10 @@ pub fn check(c: &Case, obs: &mut Obs) -> CheckResult {
     let got = r.request(c.pre).len();
     let adv = c.adv.min(got);
     r.advance(adv);
-    let s = &c.data[adv..];
+    // what the source can deliver: everything, or the bytes in front of its failure
+    let avail = c.feed.sched.fail_at.map_or(c.data.len(), |(k, _)| k.min(c.data.len()));
+    obs.class_if(c.feed.sched.fail_at.is_some(), "failing-source");
+    let s = &c.data[adv..avail.max(adv)];
     let pos0 = r.position();
     let buf0 = r.buf().to_vec();
     let d0 = log.borrow().delivered;
@@ -163,9 +166,9 @@ pub fn check(c: &Case, obs: &mut Obs) -> CheckResult {
         let bound = if need == 0 {
             d0
         } else if need == usize::MAX {
-            c.data.len()
+            avail
         } else {
-            d0.max((adv + need + chunk - 1).min(c.data.len()))
+            d0.max((adv + need + chunk - 1).min(avail))
         };
         ensure!(
             d1 <= bound,
@@ -181,6 +184,32 @@ pub fn check(c: &Case, obs: &mut Obs) -> CheckResult {
             d0,
             need,
             chunk
+        );
+    }
+    // After the source's failure was reported the helper still gives the same answer and the
+    // source is left alone.
+    if c.feed.sched.fail_at.is_some() {
+        let calls = log.borrow().calls;
+        let _ = r.check_io_error();
+        let again = match c.func {
+            Func::TabsOrSpaces => flussab::text::tabs_or_spaces(&mut r, c.off),
+            Func::Newline => flussab::text::newline(&mut r, c.off),
+            Func::NextNewline => flussab::text::next_newline(&mut r, c.off),
+            Func::Fixed => flussab::text::fixed(&mut r, c.off, &c.pat),
+        };
+        let l = log.borrow();
+        ensure!(
+            again == ret && (!l.terminal_returned || l.calls == calls) && l.calls_after_terminal == 0,
+            format!("{sig}:after-error-report"),
+            "{:?}({:?} @ {}): first call returned {}, the call after check_io_error() returned {}; source calls {} -> {}, {} of them after it had failed",
+            c.func,
+            show_bytes(s),
+            c.off,
+            ret,
+            again,
+            calls,
+            l.calls,
+            l.calls_after_terminal
         );
     }
     Ok(())
@@ -332,9 +361,13 @@ fn run(ctx: &Ctx) {
         ],
         any::<u16>(),
         0u8..4,
+        proptest::option::weighted(0.15, (any::<u16>(), crate::source::errkind_strategy())),
     )
-        .prop_map(|(data, feed, pre, adv, off, func, plen, pkind)| {
+        .prop_map(|(data, mut feed, pre, adv, off, func, plen, pkind, fail)| {
             let n = data.len();
+            if let Some((f, kind)) = fail {
+                feed.sched.fail_at = Some(((f as usize * (n + 1)) >> 16, kind));
+            }
             let pre = (pre as usize * (n + 2)) >> 16;
             let adv = (adv as usize * (pre.min(n) + 1)) >> 16;
             let rem = n - adv.min(n);
